@@ -1,6 +1,7 @@
 import Blf.Queue
 import Blf.Pipe
 import Blf.Gen.Monitors
+import Blf.Gen.Guards
 /-!
 # The notify / wait tables of the models are the tables of the source  (tie T for the monitors)
 
@@ -8,8 +9,16 @@ import Blf.Gen.Monitors
 `UncompressedFile`, which condition variables it notifies — a notification behind an `if`, a loop or an early `return`
 is marked `?` — and which one it waits on.  The theorems below state that these are the tables the models use
 (`Blf.Queue.notifies`, `Blf.Queue.waitsOn`, `Blf.Pipe.uNotifies`, `Blf.Pipe.uWaitsOn`): the *no lost wake-up* invariants
-of `Blf.QueueConc`, `Blf.Pipe` and `Blf.WPipe` are proved about exactly these tables.  The wait predicates themselves are
-compared as shapes with a recorded hash (`spec/monitors_golden.json`) and dynamically (`qseq`, `useq`, `demand` probes).
+of `Blf.QueueConc`, `Blf.Pipe` and `Blf.WPipe` are proved about exactly these tables.
+
+The wait predicates: `Blf.Gen.Guards` holds the predicate of every `wait` call translated from the AST into a Boolean
+function of the model state (mathematical integers; a cast to an unsigned type is a reduction modulo 2^width).  The
+`*_guard` theorems state that these are the guards of the models (`Queue.guard`, `UFile.guardRead`, `UFile.guardWrite`,
+`UFile.guardWriteCont`, and through `Pipe.up_guard*` the guards `Pipe`/`WPipe` step on) — for the object queue under the
+hypothesis that fewer than 2^32 objects are queued (the code casts `m_queue.size()` to `uint32_t`; outside the model).  A
+rewrite of a predicate that keeps its meaning keeps these theorems provable (they are closed by case analysis and `omega`,
+not by syntactic identity); a change of meaning breaks them.  Dynamically the guards are exercised by the blocking and
+`demand` probes of the `qseq` / `useq` correspondence.
 -/
 namespace Blf.MonitorTie
 open Blf.Queue (CV)
@@ -52,5 +61,37 @@ theorem ufile_notifies (m : Pipe.UMeth) : lookup (uName m) Gen.ufileNotifies = s
 
 theorem ufile_waits (m : Pipe.UMeth) : lookup (uName m) Gen.ufileWaits = some ((Pipe.uWaitsOn m).toList.map cvName) := by
   cases m <;> decide
+
+/-! ## the wait predicates -/
+
+/-- equality of two guards: Boolean structure by `simp`, the arithmetic by `omega` (independent of the order of the disjuncts and of
+    how a comparison is written) -/
+macro "guard_eq" : tactic => `(tactic| (
+  rw [Bool.eq_iff_iff]
+  try simp only [Bool.or_eq_true, Bool.and_eq_true, Bool.not_eq_true', decide_eq_true_eq, decide_eq_false_iff_not,
+    Bool.false_eq_true, Bool.true_eq_false, false_or, or_false, true_or, or_true, false_and, and_false, true_and, and_true,
+    Bool.not_true, Bool.not_false, iff_self, not_true_eq_false, not_false_eq_true]
+  first | done | omega))
+
+theorem queue_read_guard (s : Queue.State) : Gen.queueGuard_read s = Queue.guard s .read := by
+  unfold Gen.queueGuard_read Queue.guard
+  cases s.abort <;> cases s.queue.isEmpty <;> guard_eq
+
+theorem queue_write_guard (s : Queue.State) (x : Nat) (h : s.queue.length < 4294967296) :
+    Gen.queueGuard_write s = Queue.guard s (.write x) := by
+  unfold Gen.queueGuard_write Queue.guard
+  cases s.abort <;> guard_eq
+
+theorem ufile_read_guard (s : UFile.State) (n : Nat) : Gen.ufileGuard_read s (n : Int) = UFile.guardRead s n := by
+  unfold Gen.ufileGuard_read UFile.guardRead
+  cases s.abort <;> guard_eq
+
+theorem ufile_write_guard (s : UFile.State) : Gen.ufileGuard_write s = UFile.guardWrite s := by
+  unfold Gen.ufileGuard_write UFile.guardWrite
+  cases s.abort <;> guard_eq
+
+theorem ufile_writeCont_guard (s : UFile.State) : Gen.ufileGuard_write1 s = UFile.guardWriteCont s := by
+  unfold Gen.ufileGuard_write1 UFile.guardWriteCont
+  cases s.abort <;> guard_eq
 
 end Blf.MonitorTie
